@@ -3,6 +3,8 @@ package props
 import (
 	"bytes"
 	"fmt"
+	"regexp"
+	"runtime"
 	"sort"
 	"strings"
 	"sync"
@@ -31,10 +33,13 @@ type recorder struct {
 		mu    sync.Mutex
 		files []recFile
 	}
-	// failAt > 0: the k-th WriteFile call (1-based, counted per recorder) fails.
-	failAt int64
-	count  int64
-	cmu    sync.Mutex
+	// failAt > 0: the k-th WriteFile call (1-based, counted per recorder) fails;
+	// with persistent set every call from the k-th on fails (a full disk, a
+	// directory that does not exist).
+	failAt     int64
+	persistent bool
+	count      int64
+	cmu        sync.Mutex
 }
 
 func (w *recorder) WriteFile(f *core.File) error {
@@ -46,7 +51,7 @@ func (w *recorder) WriteFile(f *core.File) error {
 		w.count++
 		k := w.count
 		w.cmu.Unlock()
-		if k == w.failAt {
+		if k == w.failAt || (w.persistent && k > w.failAt) {
 			err = fmt.Errorf("injected write failure at file %d (%s)", k, f.Name)
 		}
 	}
@@ -66,6 +71,39 @@ func (w *recorder) all() []recFile {
 	}
 	sort.SliceStable(out, func(a, b int) bool { return out[a].Name < out[b].Name })
 	return out
+}
+
+var goroutineHeader = regexp.MustCompile(`^goroutine (\d+) (?:gp=\S+ m=\S+ (?:mp=\S+ )?)?\[([^\],]+)`)
+
+// repoGoroutinesBlocked looks at a dump of all goroutines: it reports (with
+// the dump) when at least one goroutine is inside marker (e.g. the publisher)
+// and every goroutine that has a frame of the library on its stack is parked
+// on a channel, a select, a lock or a wait group - nothing of the library is
+// running or runnable, so nothing can ever wake them up from inside.
+func repoGoroutinesBlocked(marker string) (bool, string) {
+	buf := make([]byte, 1<<22)
+	dump := string(buf[:runtime.Stack(buf, true)])
+	inMarker, blockedAll := 0, true
+	var kept []string
+	for _, blk := range strings.Split(dump, "\n\n") {
+		m := goroutineHeader.FindStringSubmatch(strings.TrimSpace(strings.SplitN(strings.TrimSpace(blk), "\n", 2)[0]))
+		if m == nil || !strings.Contains(blk, "github.com/elliotchance/gedcom/v39") {
+			continue
+		}
+		if strings.Contains(blk, marker) {
+			inMarker++
+		}
+		switch st := m[2]; {
+		case strings.HasPrefix(st, "chan send"), strings.HasPrefix(st, "chan receive"), strings.HasPrefix(st, "select"), strings.HasPrefix(st, "semacquire"), strings.HasPrefix(st, "sync."):
+			kept = append(kept, blk)
+		default:
+			blockedAll = false
+		}
+	}
+	if inMarker == 0 || !blockedAll {
+		return false, ""
+	}
+	return true, strings.Join(kept, "\n\n")
 }
 
 type site struct {
